@@ -72,8 +72,8 @@ Section MetaResume.
     unfold meta_inv. prj. split; [exact I1|]. split.
     - intros Hg. destruct (I2 Hg) as (A & B & C). rewrite Hg. cbn [andb]. auto.
     - intros Hg. destruct (I3 Hg) as (J1 & J2 & J3). rewrite Hg. cbn [andb]. repeat split; auto.
-      rewrite filter_app, <- J1. cbn [filter]. unfold near, near_hill. cbn [h_c]. rewrite I1.
-      destruct (near_edge O c (c_geom0 c) (i_x i)); rewrite ?app_nil_r; reflexivity.
+      rewrite filter_app, <- J1. cbn [filter]. unfold near, near_hill. cbn [h_c h_s]. rewrite I1.
+      destruct (near_edge O c (c_geom0 c) (c_sigmas c) (i_x i)); rewrite ?app_nil_r; reflexivity.
   Qed.
 
   Lemma inv_step c s i : meta_ok c -> meta_inv c s -> meta_inv c (step_state O c s i).
